@@ -18,6 +18,7 @@ import (
 	"fmt"
 	"os"
 	"path/filepath"
+	"reflect"
 	"sort"
 	"strconv"
 	"strings"
@@ -209,11 +210,24 @@ func (e *c10Env) appendDirect(n, batch int) error {
 // path: NATS -> messageProcessingLoop -> Append -> HW) and waits until it is
 // committed.
 func (e *c10Env) publishAPI() error {
-	e.seq++
-	ctx, cancel := context.WithTimeout(context.Background(), c10Watchdog)
-	defer cancel()
-	resp, err := e.srv.api.Publish(ctx, &client.PublishRequest{Stream: e.stream, Key: e.keyFor(e.seq),
-		Value: []byte(fmt.Sprintf("c10-%s-%05d", e.stream, e.seq)), AckPolicy: client.AckPolicy_LEADER})
+	var (
+		resp *client.PublishResponse
+		err  error
+	)
+	// An ack that does not arrive is not this property's business (C04): try
+	// again (a message stored twice is harmless, the oracle reads the log) and
+	// make the retry visible in the evidence.
+	for attempt := 0; attempt < 3; attempt++ {
+		e.seq++
+		ctx, cancel := context.WithTimeout(context.Background(), 8*time.Second)
+		resp, err = e.srv.api.Publish(ctx, &client.PublishRequest{Stream: e.stream, Key: e.keyFor(e.seq),
+			Value: []byte(fmt.Sprintf("c10-%s-%05d", e.stream, e.seq)), AckPolicy: client.AckPolicy_LEADER})
+		cancel()
+		if err == nil {
+			break
+		}
+		e.rep.Count("api_publish_retries", 1)
+	}
 	if err != nil {
 		return err
 	}
@@ -347,19 +361,44 @@ func (e *c10Env) state() (*c10State, error) {
 	if st.HW >= 0 && len(st.All) > 0 && st.HW >= st.Oldest && !st.has(st.HW) {
 		return nil, fmt.Errorf("HW %d is not a retained offset", st.HW)
 	}
-	ents, err := os.ReadDir(e.dir)
-	if err != nil {
-		return nil, err
-	}
-	for _, f := range ents {
-		if strings.HasSuffix(f.Name(), ".log") {
-			if b, err := strconv.ParseInt(strings.TrimSuffix(f.Name(), ".log"), 10, 64); err == nil {
-				st.Bases = append(st.Bases, b)
+	st.Bases = c10SegmentBases(l)
+	if st.Bases == nil {
+		// fall back to the segment files
+		ents, err := os.ReadDir(e.dir)
+		if err != nil {
+			return nil, err
+		}
+		for _, f := range ents {
+			if strings.HasSuffix(f.Name(), ".log") {
+				if b, err := strconv.ParseInt(strings.TrimSuffix(f.Name(), ".log"), 10, 64); err == nil {
+					st.Bases = append(st.Bases, b)
+				}
 			}
 		}
 	}
 	sort.Slice(st.Bases, func(i, j int) bool { return st.Bases[i] < st.Bases[j] })
 	return st, nil
+}
+
+// c10SegmentBases reads the base offsets of the log's in-memory segment list
+// (commitLog.Segments(), reached by reflection because the type is unexported
+// in another package).  Only used to label cases (segment boundaries, empty
+// active segment), never for a verdict.
+func c10SegmentBases(l commitlog.CommitLog) (bases []int64) {
+	defer func() {
+		if recover() != nil {
+			bases = nil
+		}
+	}()
+	m := reflect.ValueOf(l).MethodByName("Segments")
+	if !m.IsValid() {
+		return nil
+	}
+	segs := m.Call(nil)[0]
+	for i := 0; i < segs.Len(); i++ {
+		bases = append(bases, segs.Index(i).Elem().FieldByName("BaseOffset").Int())
+	}
+	return bases
 }
 
 // fence commits everything that is in the log and, unless the partition is
